@@ -199,29 +199,35 @@ struct Core {
 		VH_POISON((void *)b, rl); sh_set(b, rl, false);
 		recycled.push_back({b - (uintptr_t)base, rl});
 	}
-	void range_check(const char *what, uintptr_t a, size_t n) {
+	// returns the part of n that lies inside the mapped region containing a (the whole of n when the call is legal)
+	size_t range_check(const char *what, uintptr_t a, size_t n) {
 		if(held) vh::oracle("lock-at-callback", "%s() called with %d pool lock(s) held", what, held);
 		if(n && !in_region(a, n)) {
 			vh::oracle("poison", "%s(%llu, %zu): range is not inside a mapped region", what, (ull)v(a), n);
-			throw FatalOracle{};
+			auto it = regions.upper_bound(a);
+			if(it == regions.begin()) return 0;
+			--it;
+			if(a >= it->first + it->second) return 0;
+			return it->first + it->second - a;
 		}
+		return n;
 	}
 	void do_poison(void *p, size_t n) {
 		flush_run(); op_cbs++;
 		printf("poison %llu %zu\n", (ull)v((uintptr_t)p), n);
-		range_check("poison", (uintptr_t)p, n);
+		n = range_check("poison", (uintptr_t)p, n);
 		VH_POISON(p, n); sh_set((uintptr_t)p, n, false);
 	}
 	void do_unpoison(void *p, size_t n) {
 		op_cbs++;
 		line_unpoison((uintptr_t)p, n);
-		range_check("unpoison", (uintptr_t)p, n);
+		n = range_check("unpoison", (uintptr_t)p, n);
 		VH_UNPOISON(p, n); sh_set((uintptr_t)p, n, true);
 	}
 	void do_unpoison_expand(void *p, size_t n) {
 		flush_run(); op_cbs++;
 		printf("unpoison_expand %llu %zu\n", (ull)v((uintptr_t)p), n);
-		range_check("unpoison_expand", (uintptr_t)p, n);
+		n = range_check("unpoison_expand", (uintptr_t)p, n);
 		VH_UNPOISON(p, n); sh_set((uintptr_t)p, n, true);
 	}
 };
